@@ -699,12 +699,115 @@ def run_caps(job, out):
     out["caps"] = res
 
 
+# ---------------------------------------------------------------------------------------------------------------
+# Part 4: one MemoryLogger through a whole lifecycle (write / validate / check_for_errors / reset / flushTracebacks)
+class LifeTypes(object):
+    def __init__(self):
+        self.mt_int = MessageType("c14:life:int", [Field.forTypes("x", [int], "an int")], "typed message")
+        self.mt_two = MessageType("c14:life:two", fields(x=int, s=str) + [Field.forValue("k", "K", "constant")], "typed message")
+        self.mt_any = MessageType("c14:life:any", [Field("y", lambda v: v, "anything")], "typed message")
+        self.mt_xv = MessageType("c14:life:xv", [Field.forTypes("x", [int], "non-negative", extraValidator=nonneg)], "typed")
+        self.at = ActionType("c14:life:act", fields(x=int), fields(r=str), "typed action")
+
+
+def life_write(lt, lg, kind, rng):
+    """Write message(s) of the given kind to lg.  Conforming messages only use fields whose serialization is idempotent."""
+    v = rng.randrange(4)
+    if kind == "ok":
+        if v == 0:
+            lt.mt_int(x=rng.choice([0, 7, True])).write(lg)
+        elif v == 1:
+            lt.mt_two(x=1, s="t", k="K").write(lg)
+        elif v == 2:
+            with lt.at(lg, x=2) as a:
+                a.add_success_fields(r="done")
+        else:
+            eliot.Message.new(a=[1, {"b": None}], p=pathlib.Path("/tmp/x")).write(lg)
+    elif kind == "wrong":
+        if v == 0:
+            lt.mt_int(x="not an int").write(lg)
+        elif v == 1:
+            lt.mt_two(x=1, s=5, k="K").write(lg)
+        elif v == 2:
+            with lt.at(lg, x=None):
+                pass
+        else:
+            lt.mt_two(x=1, s="t", k="other").write(lg)
+    elif kind == "missing":
+        if v % 2 == 0:
+            lt.mt_int().write(lg)
+        else:
+            with lt.at(lg, x=1):
+                pass      # success field r is missing
+    elif kind == "extra":
+        if v % 2 == 0:
+            lt.mt_int(x=1, extra=2).write(lg)
+        else:
+            with lt.at(lg, x=1, reason="why"):
+                pass
+    elif kind == "xv":
+        lt.mt_xv(x=rng.choice([-1, -99])).write(lg)
+    elif kind == "nonjson":
+        if v == 0:
+            lt.mt_any(y=object()).write(lg)
+        elif v == 1:
+            eliot.Message.new(a=[Opaque()]).write(lg)
+        elif v == 2:
+            lt.mt_any(y=b"\xff").write(lg)
+        else:
+            with eliot.start_action(lg, "c14:life:untyped", z={"k": object()}):
+                pass
+    elif kind == "tb":
+        try:
+            raise ZeroDivisionError("lifecycle")
+        except ZeroDivisionError:
+            write_traceback(lg)
+    else:
+        raise ValueError(kind)
+
+
+def run_life(job, out):
+    lt = LifeTypes()
+    res = []
+    for item in job.get("lives", []):
+        for w in range(job.get("life_nwit", 1)):
+            rng = random.Random("%s/life/%s/%s" % (job["seed"], item["i"], w))
+            lg = MemoryLogger()
+            obs = []
+            for step in item["hist"]:
+                op = step["op"]
+                if op.startswith("W_"):
+                    try:
+                        kind = op[2:]
+                        if kind == "wrong" and job.get("mix_ve"):
+                            kind = rng.choice(["wrong", "missing", "extra", "xv"])
+                        life_write(lt, lg, kind, rng)
+                        obs.append("-")
+                    except BaseException as e:
+                        obs.append("WRITE-RAISED:" + type(e).__name__)
+                elif op == "V":
+                    obs.append(observe(lg.validate)[0])
+                elif op == "C":
+                    obs.append(observe(lambda: check_for_errors(lg))[0])
+                elif op == "R":
+                    lg.reset()
+                    obs.append("-")
+                elif op == "F":
+                    try:
+                        obs.append("flushed%d" % len(lg.flushTracebacks(ZeroDivisionError)))
+                    except BaseException as e:
+                        obs.append("FLUSH-RAISED:" + type(e).__name__)
+            res.append([item["i"], w, obs])
+    out["lives"] = res
+
+
 def main():
     job = json.load(open(sys.argv[1]))
     out = {"file": eliot.__file__}
     run_cases(job, out)
     run_random(job, out)
     run_caps(job, out)
+    run_life(job, out)
     json.dump(out, open(sys.argv[2], "w"), default=repr)
 
 
